@@ -161,7 +161,13 @@ class Dec:
                 raise ValueError("indefinite map unsupported")
             return Map([(self.item(), self.item()) for _ in range(self._arg(info))])
         if major == 6:
-            return Tag(self._arg(info), self.item())
+            t = self._arg(info)
+            v = self.item()
+            if t == 2 and isinstance(v, bytes):      # bignums are integers of the data model
+                return int.from_bytes(v, "big")
+            if t == 3 and isinstance(v, bytes):
+                return -1 - int.from_bytes(v, "big")
+            return Tag(t, v)
         if info == 20:
             return False
         if info == 21:
